@@ -233,7 +233,20 @@ Inductive op :=
 | OQSlice (a b : option Z) (r : Z) (mut : option Z)
                                         (* q = fts.slice(a, b, rel=r) observed, fts unchanged; with mut = Some L the RESULT is
                                            then mirrored in place (q.rc(L)) and observed again *)
-| OQCmp (i j : nat).                    (* comparisons between fts[i].locs and fts[j].locs observed *)
+| OQCmp (i j : nat)                     (* comparisons between fts[i].locs and fts[j].locs observed *)
+| OSort (rev : bool).                   (* fts.sort(reverse=rev): default ordering by position *)
+
+(* FeatureList.sort() without keys, fts.py:782-803 -> cane._sorted: sorted(features, reverse=rev) with Feature.__lt__
+   (fts.py:365-373; all features of a case have the same seqid), i.e. a stable sort by LocationTuple.__lt__ *)
+Definition ft_before (rev : bool) (x y : feature) : bool :=
+  (* does y have to stay in front of x?  no: x is put before the first y that is not strictly ahead of it *)
+  if rev then lt_lt (flocs x) (flocs y) else lt_lt (flocs y) (flocs x).
+Fixpoint insert_ft (rev : bool) (x : feature) (l : list feature) : list feature :=
+  match l with
+  | [] => [x]
+  | y :: r => if ft_before rev x y then y :: insert_ft rev x r else x :: l
+  end.
+Definition sort_fts (rev : bool) (l : list feature) : list feature := fold_right (insert_ft rev) [] l.
 
 Fixpoint update_nth {A} (i : nat) (f : A -> option A) (l : list A) : option (list A) :=
   match l, i with
@@ -259,6 +272,7 @@ Definition apply_op (o : op) (st : list feature) : option (list feature) :=
       end
   | OQSlice _ _ _ _ => Some st
   | OQCmp _ _ => Some st
+  | OSort rev => Some (sort_fts rev st)
   end.
 
 Definition B62 : Z := 4611686018427387904.   (* 2^62 *)
@@ -275,6 +289,7 @@ Definition op_ok (o : op) (st : list feature) : bool :=
       match a, b with Some _, Some _ => true | _, _ => coords_in B62 st end
   | OShareLocs _ _ => true
   | OQCmp _ _ => true
+  | OSort _ => true
   | ORc L => true
   | OFtRc i L => true
   | OSetLocs i raws => forallb raw_ok raws
